@@ -999,33 +999,6 @@ pub fn diagnostics_concrete_categorical_u16_p12() {
     }
 }
 
-/// C05 (bounded: one concrete weight table [1, 3, 2, 0] with a trailing zero entry, P = 4, the
-/// caller's `normalization` drawn from {None, 6, 8, 12}, i.e. absent, equal to the sum, and larger
-/// than the sum): the same-named constructor `from_floating_point_probabilities_fast` of the eager
-/// contiguous model, the lazy contiguous model and the lookup decoder, given the SAME arguments,
-/// build the same fixed-point model: every symbol (any usize) and every quantile.
-#[cfg_attr(kani, kani::proof)]
-#[cfg_attr(kani, kani::unwind(20))]
-pub fn same_named_float_constructors_normalization_p4() {
-    const P: usize = 4;
-    let p: [f32; 4] = [1.0, 3.0, 2.0, 0.0];
-    let norm: Option<f32> = match group(4) { 0 => None, 1 => Some(6.0), 2 => Some(8.0), _ => Some(12.0) };
-    let e = match ContiguousCategoricalEntropyModel::<u8, Vec<u8>, P>::from_floating_point_probabilities_fast(&p, norm) {
-        Ok(e) => e, Err(()) => { assert!(false, "C19: eager float constructor refuses a valid table (normalization >= sum)"); return; } };
-    let l = match LazyContiguousCategoricalEntropyModel::<u8, f32, &[f32], P>::from_floating_point_probabilities_fast(&p[..], norm) {
-        Ok(l) => l, Err(()) => { assert!(false, "C05/C19: lazy float constructor refuses a table the eager one accepts"); return; } };
-    let t = match ContiguousLookupDecoderModel::<u8, Vec<u8>, Box<[u8]>, P>::from_floating_point_probabilities_fast(&p, norm) {
-        Ok(t) => t, Err(()) => { assert!(false, "C05/C19: lookup float constructor refuses a table the eager one accepts"); return; } };
-    let s: usize = any();
-    let q: u8 = any(); assume(q < 16);
-    let r = e.quantile_function(q);
-    match group(3) {
-        0 => assert!(l.left_cumulative_and_probability(s) == e.left_cumulative_and_probability(s), "C05: lazy model differs from eager model built from the same arguments (encoder view)"),
-        1 => assert!(l.quantile_function(q) == r, "C05: lazy model differs from eager model built from the same arguments (decoder view)"),
-        _ => assert!(t.quantile_function(q) == r, "C05: lookup decoder differs from the searched decoder built from the same arguments"),
-    }
-}
-
 macro_rules! generic_concrete_harness {
     ($name:ident, $P:expr) => {
         /// C05 (bounded: one concrete 3-symbol table, every quantile): to_generic_decoder_model and
